@@ -13,6 +13,9 @@ if p.startswith('u'):
 elif p.startswith('w'):
     p = 'c' + p[1:]
     k_out = str(int(k) + 4)
+elif p.startswith('q'):
+    p = 'c' + p[1:]
+    k_out = str(int(k) + 6)
 dst = '/verif/seeded/%s-%s' % (p.upper(), k_out)
 os.makedirs(dst, exist_ok=True)
 shutil.copy(os.path.join(src, 'change%s.diff' % k), os.path.join(dst, 'patch.diff'))
